@@ -3,6 +3,7 @@
 package main
 
 import (
+	"math/big"
 	"errors"
 	"fmt"
 	"regexp"
@@ -144,7 +145,7 @@ func cmdFaultOps(args []string) int {
 				out.Violation("C07", cs, fmt.Sprintf("[trace-left] the operation %s (fault %s at statement %d, fired=%v) but the ledger changed", what, fs.Mode, fs.K, fired))
 				return
 			}
-			if fired && fs.Mode != "error" && !strings.HasPrefix(r.Class, "other:") { // transient fault that was retried: the operation must behave like its fault-free twin
+			if fired && fs.Mode != "error" && !(strings.HasPrefix(r.Class, "other:") && (strings.Contains(r.Class, "deadlock") || strings.Contains(r.Class, "(injected)"))) { // transient fault that was retried: the operation must behave like its fault-free twin
 				ref, _ := run(feat, ops, target, faultSpec{Mode: "none"})
 				if len(ref.Res) == n+1 && ref.Res[n].Panic == "" {
 					rr := ref.Res[n]
@@ -199,6 +200,14 @@ func cmdFaultOps(args []string) int {
 		prefix := ops[:len(ops)-1]
 		if rr.Chance(30) {
 			target.Dry = true
+		}
+		if i%6 == 3 { // a create reusing a reference the prefix committed: its (typed) conflict must survive the retry path
+			for k, o := range prefix {
+				if o.Kind == "create" && o.Ref != "" && !o.Dry && hr.Res[k].Class == "none" {
+					target = Op{Kind: "create", Post: []Posting{{"world", "bob", "USD", big.NewInt(5)}}, Ref: o.Ref, Now: target.Now, IK: target.IK}
+					break
+				}
+			}
 		}
 		modes := []faultSpec{{"deadlock", 1 + rr.Intn(9)}, {"ikrace", 0}, {"error", 1 + rr.Intn(12)}, {"deadlock", 1 + rr.Intn(4)}}
 		for _, fs := range modes {
